@@ -101,10 +101,10 @@ class Intersect(Family):
             listed = count(b_and(j < npts, idx[j] == g) for j in range(ng))
             res.append(('each-grid-cell-once[%d]' % g, listed == iite(cnt > 0, 1, 0)))
             wg = fsum(fite(b_and(j < npts, idx[j] == g), w[j], 0.0) for j in range(ng))
-            res.append(('weight=count*area-ratio[%d]' % g, fsame(wg, fmul(tor(cnt), factor), self.tol)))
+            res.append(('weight=count*area-ratio[%d]' % g, fsame(wg, fmul(tor(cnt), factor), self.tol, stol=1e-12)))
             total = fadd(total, wg)
         res.append(('listed-cells-valid', forall(b_implies(j < npts, b_and(idx[j] >= 0, idx[j] < ng)) for j in range(ng))))
-        res.append(('area-conserved', fsame(fmul(total, float(ratio * ratio)), tor(ninside), self.tol)))
+        res.append(('area-conserved', fsame(fmul(total, float(ratio * ratio)), tor(ninside), self.tol, stol=1e-12)))
         return res
 
 
